@@ -163,16 +163,18 @@ func recvFieldLoad(fn *ssa.Function, v ssa.Value, flag *types.Var) bool {
 	return false
 }
 
-func c19Close(w *World, r *Report, s safeType) {
+func c19Close(w *World, r *Report, s safeType) { c19CloseRule(w, r, "R19.1", s) }
+
+func c19CloseRule(w *World, r *Report, rule string, s safeType) {
 	key := "type:" + qualName(s.T) + "|Close"
 	if s.Close == nil {
-		r.Violate("R19.1", key, w.Pos(s.T.Obj().Pos()), "flag-carrying wrapper has no Close of its own")
+		r.Violate(rule, key, w.Pos(s.T.Obj().Pos()), "flag-carrying wrapper has no Close of its own")
 		return
 	}
 	fn := w.SSAFunc(s.Close)
 	pos := w.Pos(s.Close.Pos())
 	if fn == nil || len(fn.Blocks) == 0 {
-		r.Undecided("R19.1", key, pos, "no SSA body")
+		r.Undecided(rule, key, pos, "no SSA body")
 		return
 	}
 	isInner := func(v ssa.Value) bool { return recvFieldLoad(fn, v, s.Flag) }
@@ -283,14 +285,14 @@ func c19Close(w *World, r *Report, s safeType) {
 		}
 	})
 	if !ok {
-		r.Undecided("R19.1", key, pos, "path budget exceeded")
+		r.Undecided(rule, key, pos, "path budget exceeded")
 		return
 	}
 	if paths < 2 {
-		r.Violate("R19.1", key, pos, "Close has no flag-dependent branching (a repeated Close closes the inner resource again or a first Close closes nothing)", "paths", paths)
+		r.Violate(rule, key, pos, "Close has no flag-dependent branching (a repeated Close closes the inner resource again or a first Close closes nothing)", "paths", paths)
 		return
 	}
-	r.Check(bad == 0, "R19.1", key, pos, fmt.Sprintf("all %d paths: flag set => no inner close, nil; flag clear => one inner close, flag:=true, its error returned", paths), firstBad, "paths", paths, "flag_field", s.Flag.Name())
+	r.Check(bad == 0, rule, key, pos, fmt.Sprintf("all %d paths: flag set => no inner close, nil; flag clear => one inner close, flag:=true, its error returned", paths), firstBad, "paths", paths, "flag_field", s.Flag.Name())
 }
 
 func c19Closed(w *World, r *Report, s safeType) {
@@ -884,5 +886,18 @@ func rulePairClosesBothHalves(w *World, r *Report, rule string) {
 	}
 	if n == 0 {
 		r.Undecided(rule, "pairtypes:streams", "-", "no reader+writer pair type found in package streams")
+	}
+}
+
+// ruleSafeCloseSetsFlag: the flag-carrying wrappers' Close marks the wrapper closed on every path (registered
+// under C16 too: Upstreams.Connect detects a lost session only through Closed() of the wrapper stack).
+func ruleSafeCloseSetsFlag(w *World, r *Report, rule string) {
+	sts := findSafeTypes(w)
+	if len(sts) == 0 {
+		r.Undecided(rule, "safetypes", "-", "no flag-carrying wrapper found in package streams")
+		return
+	}
+	for _, st := range sts {
+		c19CloseRule(w, r, rule, st)
 	}
 }
